@@ -1,0 +1,99 @@
+//go:build verif
+
+package redisemu
+
+import (
+	"net"
+	"runtime/debug"
+	"sync"
+	"sync/atomic"
+)
+
+// SimHooks is the set of callbacks a deterministic simulator installs with
+// SimInstall. Only compiled with the verif build tag. With no hooks installed
+// every call site is a no-op, so a verif build behaves like a normal one.
+type SimHooks struct {
+	// schedule point: the calling goroutine may be parked here
+	Yield func(site string)
+	// called immediately before mu.Lock() / after mu.Unlock()
+	BeforeLock  func(mu *sync.Mutex, site string)
+	AfterUnlock func(mu *sync.Mutex, site string)
+	// first / last thing a goroutine of the emulator does
+	TaskBegin func(kind string, id int64)
+	TaskEnd   func()
+	// a goroutine of the emulator panicked; if Recover is nil the panic propagates
+	Recover func(value any, stack []byte)
+	// reach counter
+	Probe func(name string)
+	// a stage of writing a snapshot file has completed
+	PersistStage func(stage string, path string)
+	// replaces net.Listen
+	Listen func(network, addr string) (net.Listener, error)
+}
+
+var simHooks atomic.Pointer[SimHooks]
+
+// SimInstall installs (or, with nil, removes) the simulation hooks.
+func SimInstall(h *SimHooks) { simHooks.Store(h) }
+
+func simYield(site string) {
+	if h := simHooks.Load(); h != nil && h.Yield != nil {
+		h.Yield(site)
+	}
+}
+
+func simBeforeLock(mu *sync.Mutex, site string) {
+	if h := simHooks.Load(); h != nil && h.BeforeLock != nil {
+		h.BeforeLock(mu, site)
+	}
+}
+
+func simAfterUnlock(mu *sync.Mutex, site string) {
+	if h := simHooks.Load(); h != nil && h.AfterUnlock != nil {
+		h.AfterUnlock(mu, site)
+	}
+}
+
+func simTaskBegin(kind string, id int64) {
+	if h := simHooks.Load(); h != nil && h.TaskBegin != nil {
+		h.TaskBegin(kind, id)
+	}
+}
+
+func simTaskEnd() {
+	if h := simHooks.Load(); h != nil && h.TaskEnd != nil {
+		h.TaskEnd()
+	}
+}
+
+// simRecover is deferred at the top of every goroutine of the emulator. It
+// only recovers when a simulator asked for it; otherwise the panic kills the
+// process exactly as it does without the verif tag.
+func simRecover() {
+	h := simHooks.Load()
+	if h == nil || h.Recover == nil {
+		return
+	}
+	if r := recover(); r != nil {
+		h.Recover(r, debug.Stack())
+	}
+}
+
+func simProbe(name string) {
+	if h := simHooks.Load(); h != nil && h.Probe != nil {
+		h.Probe(name)
+	}
+}
+
+func simPersistStage(stage string, path string) {
+	if h := simHooks.Load(); h != nil && h.PersistStage != nil {
+		h.PersistStage(stage, path)
+	}
+}
+
+func netListen(network, addr string) (net.Listener, error) {
+	if h := simHooks.Load(); h != nil && h.Listen != nil {
+		return h.Listen(network, addr)
+	}
+	return net.Listen(network, addr)
+}
